@@ -805,3 +805,14 @@ def iter_history(u: Unit):
         u.oblige(p, "iter.history.second_iteration_follows_the_current_switches", z3.And(zb(order_ok), want_second),
                  {"yielded first": str([ms.index(a) for a in hold["first"]]), "yielded after the change": str([ms.index(a) for a in second])}, TOGGLE_REPLAY)
     u.cover("iter.history.cover", ps, lambda p: p.kind == "return")
+
+
+def _dims_order(u: Unit):
+    """C07.dims_order (imported late): on the dask path the swept values reach the models' arguments paired BY POSITION with the short
+    dimension names: 'every executed model receives exactly the arguments configured for it, in every running mode' needs the names in
+    the order of the swept keys."""
+    from . import C07 as _C07d
+    return _C07d.dims_order(u)
+
+
+unit("C01", "dims.order")(_dims_order)
